@@ -259,6 +259,57 @@ fn run_case<T: Sc>(ctx: &Ctx, b: &Base, subs: &[(Pos, f64)]) {
     });
 }
 
+/// Builder-made models from specifications that are NOT valid (wrong derivative arity, missing derivative, ...).
+/// A correct builder rejects them (that is C15's subject); if a builder accepts one, it is a builder-made model
+/// and the whole pipeline must still not panic (C08).
+fn odd_builder_models(ctx: &Ctx) {
+    use nalgebra::DVector as V;
+    use varpro::prelude::*;
+    type B = SeparableModelBuilder<f64>;
+    let x = || V::from_vec(vec![0.5, 1.0, 1.5, 2.0, 2.5, 3.0]);
+    let f1 = |x: &V<f64>, a: f64| x.map(|v| (-v / a).exp());
+    let d1 = |x: &V<f64>, a: f64| x.map(|v| v / (a * a) * (-v / a).exp());
+    let f2 = |x: &V<f64>, a: f64, b: f64| x.map(|v| (-v / a).exp() * (b * v).cos());
+    let d2 = |x: &V<f64>, a: f64, b: f64| x.map(|v| v / (a * a) * (-v / a).exp() * (b * v).cos());
+    let d3 = |x: &V<f64>, a: f64, b: f64, _c: f64| x.map(|v| -v * (-v / a).exp() * (b * v).sin());
+    let specs: Vec<(&str, B)> = vec![
+        ("derivative with fewer arguments than its function", B::new(["a", "b"]).function(["a", "b"], f2).partial_deriv("a", d1).partial_deriv("b", d2).invariant_function(|x| x.map(|_| 1.0)).independent_variable(x()).initial_parameters(vec![1.0, 2.0])),
+        ("derivative with more arguments than its function", B::new(["a", "b"]).function(["a", "b"], f2).partial_deriv("a", d2).partial_deriv("b", d3).independent_variable(x()).initial_parameters(vec![1.0, 2.0])),
+        ("function with more names than arguments", B::new(["a", "b"]).function(["a", "b"], f1).partial_deriv("a", d1).partial_deriv("b", d1).independent_variable(x()).initial_parameters(vec![1.0, 2.0])),
+        ("missing derivative", B::new(["a", "b"]).function(["a", "b"], f2).partial_deriv("a", d2).independent_variable(x()).initial_parameters(vec![1.0, 2.0])),
+        ("initial guess too short", B::new(["a", "b"]).function(["a"], f1).partial_deriv("a", d1).function(["b"], f1).partial_deriv("b", d1).independent_variable(x()).initial_parameters(vec![1.0])),
+        ("initial guess too long directly after a derivative", B::new(["a"]).function(["a"], f1).partial_deriv("a", d1).initial_parameters(vec![1.0, 2.0, 3.0]).independent_variable(x())),
+        ("derivative after an intervening call", B::new(["a"]).function(["a"], f1).independent_variable(x()).partial_deriv("a", d1).initial_parameters(vec![1.0])),
+        ("parameter used by no function", B::new(["a", "b"]).function(["a"], f1).partial_deriv("a", d1).independent_variable(x()).initial_parameters(vec![1.0, 2.0])),
+    ];
+    for (name, b) in specs {
+        let case = json!({"odd_builder_model": name});
+        ctx.with(|s| s.inc("evaluations"));
+        let model = match guarded(|| b.build()) {
+            Err(m) => {
+                ctx.with(|s| s.violate("C08", "panic:model-builder", case, format!("the model builder panicked: {}", m)));
+                continue;
+            }
+            Ok(Err(_)) => {
+                ctx.with(|s| s.inc("invalid_specifications_rejected_by_builder"));
+                continue;
+            }
+            Ok(Ok(m)) => m,
+        };
+        // accepted: it is a builder-made model now
+        let y = V::from_vec(vec![1.0, 0.8, 0.5, 0.45, 0.3, 0.28]);
+        let r = guarded(move || {
+            let p = varpro::solvers::levmar::LevMarProblemBuilder::new(model).observations(y).build();
+            if let Ok(p) = p {
+                let _ = varpro::solvers::levmar::LevMarSolver::default().fit_with_statistics(p);
+            }
+        });
+        if let Err(m) = r {
+            ctx.with(|s| s.violate("C08", "panic:accepted-invalid-model", case, format!("the builder accepted this specification and fitting the resulting model panicked: {}", m)));
+        }
+    }
+}
+
 fn bases(thorough: bool) -> Vec<Base> {
     let mut v = vec![];
     let fams = vec![Family::GenProd { m: 1, p: 1, inc: default_inc(1, 1) }, Family::Exp1Off, Family::Exp2Off, Family::OLeary];
@@ -308,6 +359,9 @@ fn main() {
             return;
         }
         let thorough = ctx.args.thorough();
+        if ctx.args.shard == 0 {
+            odd_builder_models(&ctx);
+        }
         let kmax: usize = ctx.args.extra.get("k").map(|s| s.parse().unwrap()).unwrap_or(if thorough { 2 } else { 1 });
         let mut idx: u64 = 0;
         for b in bases(thorough) {
